@@ -28,7 +28,10 @@ class Prop:
     DIGEST_EVERY = 20
     RULE = ("seeded random histories (4-30 ops) on 2-5 PNode objects with seven observed "
             "properties (five cached): link/list/dict/set dependency mutations incl. shared and "
-            "repeated nodes, equal-list reassignment, value changes, property reads of a "
+            "repeated nodes, slice assignments that keep / repeat current items (same object removed "
+            "and added in one event with a different number of occurrences), equal-list "
+            "reassignment, value changes, class-level _value_changed/_child_changed handlers that "
+            "read the cached properties while a change or a restore is in flight, property reads of a "
             "generated subset after each op (so that caches survive across several changes), "
             "pickle restart / deepcopy fork of the whole graph continuing on the copy, gc; "
             "handlers (observe and on_trait_change) on a generated subset of properties; "
@@ -41,7 +44,9 @@ class Prop:
                    "fork = deep clone of the whole graph in traits' copy mode 'deep' (plain "
                    "deepcopy shares Dict items by reference: observation O3 in DESIGN.md)",
                    "'at most once between two relevant changes' is checked per mutating op: a "
-                   "cached getter may run at most once per (object, property) between two ops"]
+                   "cached getter may run at most once per (object, property) between two ops; "
+                   "runs made by class-level handlers while a change is being delivered (before "
+                   "the invalidating observer ran) are counted apart"]
 
     def gen(self, seed):
         c = stream(seed, "config")
